@@ -264,7 +264,7 @@ func zero(t types.Type) value {
 }
 
 // slice returns x[lo:hi:max].  Any of lo, hi and max may be nil.
-func slice(i *interpreter, x, lo, hi, max value) value {
+func slice(i *interpreter, x, lo, hi, max value, elemT types.Type) value {
 	var Len, Cap int
 	switch x := x.(type) {
 	case string:
@@ -313,6 +313,16 @@ func slice(i *interpreter, x, lo, hi, max value) value {
 	case symstr:
 		return mkStr(x.b[l:h])
 	case []value:
+		if h > int64(len(x)) && elemT != nil {
+			// re-slicing into spare capacity: the host's append leaves untyped
+			// nils there, Go has zero values of the element type
+			full := x[:h]
+			for k := len(x); k < int(h); k++ {
+				if full[k] == nil {
+					full[k] = zero(elemT)
+				}
+			}
+		}
 		return x[l:h:m]
 	case *value: // *array
 		a := (*x).(array)
